@@ -255,6 +255,7 @@ class C20(PropCheck):
         super().__init__(seed, tier)
         self._trees = None
         self._trees_err = None
+        self._py_seen = {}
 
     # -- translator --------------------------------------------------------------------------------
     def gen_translated(self):
@@ -584,7 +585,14 @@ class C20(PropCheck):
 
     # -- python-side clauses ---------------------------------------------------------------------------
     def py_check(self, case, out):
-        return getattr(self, 'py_' + case['kind'])(case, out)
+        """common.run_check prints one VIOLATION per distinct detail text: after the first two failures of a
+        clause the text is constant, so a systematic break gives a handful of replays, not hundreds."""
+        res = []
+        for clause, msg in getattr(self, 'py_' + case['kind'])(case, out):
+            c = self._py_seen.get(clause, 0)
+            self._py_seen[clause] = c + 1
+            res.append((clause, msg if c < 2 else 'further failing case of this clause (details in its first replays)'))
+        return res
 
     @staticmethod
     def _close(a, b, rel, ab=0.0):
